@@ -60,7 +60,7 @@ def replay_kani(prop, result, tier, scratch=None, watchdog_s=20):
                                module=meta.get("module"))
         try:
             p = subprocess.run(cmd, cwd=scratch, env=env, capture_output=True, text=True,
-                               timeout=result.get("timeout_s", 600) + 120, preexec_fn=_limits(result.get("mem_gb", 12)))
+                               timeout=max(2400, 4 * result.get("timeout_s", 600)), preexec_fn=_limits(result.get("mem_gb", 12)))
             text = p.stdout + p.stderr
         except subprocess.TimeoutExpired:
             return {"reproduced": False, "detail": "concrete-playback generation timed out", "path": None}
@@ -140,7 +140,8 @@ def replay_kani(prop, result, tier, scratch=None, watchdog_s=20):
     res = {"reproduced": rep, "path": path, "outcomes": outcomes, "termination": is_term,
            "overflow_only": overflow_only,
            "detail": "; ".join(f"{o['test']}:{o['outcome']}" for o in outcomes)}
-    if rep and meta.get("lift", "").strip() == "name":
+    lift = meta.get("lift", "").strip()
+    if rep and (lift == "name" or lift.startswith("rr:")):
         # unit-level reader state -> whole datagram through DnsIncoming::new (DESIGN 2.6)
         lifted = []
         for kind, desc, fn, tcode in cand:
@@ -149,7 +150,11 @@ def replay_kani(prop, result, tier, scratch=None, watchdog_s=20):
                 continue
             window = [b for v in vals[:-1] for b in v]  # [u8; N] arrives as N one-byte values
             off = int.from_bytes(bytes(vals[-1]), "little")
-            dg = lift_name_window(window, off)
+            if lift == "name":
+                dg = lift_name_window(window, off)
+            else:
+                parts = lift.split(":")
+                dg = lift_reader_window(window, off, int(parts[1]), bytes.fromhex(parts[2]) if len(parts) > 2 else b"")
             lr = run_lifted(dg, f"{prop}-{h}-{hsh}", watchdog_s)
             lr["datagram_hex"] = bytes(dg).hex()
             lifted.append(lr)
@@ -206,6 +211,17 @@ def lift_name_window(window, off):
     rr1 = [0, 0, 16, 0, 1, 0, 0, 0, 120, (off >> 8) & 0xFF, off & 0xFF]
     tail = [0, 1, 0, 1, 0, 0, 0, 120, 0, 4, 10, 0, 0, 1]  # lets a terminating name finish as an A record
     return hdr + rr1 + w + tail
+
+
+def lift_reader_window(window, off, rrtype, prefix=b""):
+    """Reader state (buffer, cursor) -> datagram whose second RR is of the type whose decoder calls
+    that reader first, with RDATA = prefix + window[off..] ending exactly at the end of the datagram."""
+    off = min(off, len(window))
+    hdr = [0, 0, 0x84, 0, 0, 0, 0, 2, 0, 0, 0, 0]
+    rr1 = [0, 0, 99, 0, 1, 0, 0, 0, 120, (off >> 8) & 0xFF, off & 0xFF] + list(window[:off])
+    rd = list(prefix) + list(window[off:])
+    rr2 = [0, (rrtype >> 8) & 0xFF, rrtype & 0xFF, 0, 1, 0, 0, 0, 120, (len(rd) >> 8) & 0xFF, len(rd) & 0xFF] + rd
+    return hdr + rr1 + rr2
 
 
 LIFT_TEST = """
